@@ -1,0 +1,7 @@
+//go:build !verif
+
+package opshell
+
+// verifAt is an observation point of the verification harness; it does
+// nothing unless built with -tags verif.
+func verifAt(string) {}
